@@ -17,14 +17,17 @@ CONSTANT TGroups
 
 Data == JsonDeserialize(IOEnv.TRACE_FILE)
 Kinds == <<"num", "str", "reg", "secret">>
+\* (round 4) regx [ty, f, dcls, mode, ctx, chan, rep, obs]: a registered value through a parser of another mode (ctx = "bare",
+\* chan file / cli) or inside a container / dataclass field / default (mode = "yaml", chan yaml / json / cli)
 CountOf(kd) == CASE kd = "num" -> Len(Data.num) [] kd = "str" -> Len(Data.str) [] kd = "reg" -> Len(Data.reg) [] kd = "secret" -> Len(Data.secret)
+                 [] kd = "regx" -> Len(Data.regx)
 
 \* root -> groups -> observations (so that the workers share the observations)
 VARIABLES tkind, tnum
 tvars == <<tkind, tnum>>
 Init == tkind = "root" /\ tnum = 0
 Next == \/ tkind = "root" /\ \E g \in 1..TGroups : tkind' = "group" /\ tnum' = g
-        \/ tkind = "group" /\ \E kd \in {"num", "str", "reg", "secret"} : \E n \in {m \in 1..CountOf(kd) : m % TGroups = tnum % TGroups} :
+        \/ tkind = "group" /\ \E kd \in {"num", "str", "reg", "secret", "regx"} : \E n \in {m \in 1..CountOf(kd) : m % TGroups = tnum % TGroups} :
                                   tkind' = kd /\ tnum' = n
 
 Say(kind, index, clause) == PrintT(<<"R", kind, index, clause>>)
@@ -36,7 +39,8 @@ TypeOf(j) == NType(j.base, [n \in 1..Len(j.r) |-> <<j.r[n][1], Fin(j.r[n][2], j.
 RECURSIVE ToRe(_)
 ToRe(j) == CASE j.k = "chr" -> [k |-> "chr", s |-> {j.s[n] : n \in 1..Len(j.s)}, neg |-> j.neg]
              [] j.k \in {"cat", "alt"} -> [k |-> j.k, a |-> [n \in 1..Len(j.a) |-> ToRe(j.a[n])]]
-             [] j.k \in {"star", "plus", "opt"} -> [k |-> j.k, r |-> ToRe(j.r)]
+             [] j.k \in {"star", "plus", "opt", "ci"} -> [k |-> j.k, r |-> ToRe(j.r)]
+             [] j.k = "rep" -> [k |-> "rep", r |-> ToRe(j.r), lo |-> j.lo, hi |-> j.hi]
              [] OTHER -> [k |-> j.k]
 \* what was observed: the accepted value (class of the result and its number / text), or Rejected
 SeenOf(ob) == IF ob.r = "ok" THEN [k |-> ob.k, v |-> NumOf(ob.v), t |-> ob.t, ni |-> NoNum, nf |-> NoNum] ELSE Rejected
@@ -87,6 +91,17 @@ CheckReg(n) ==
      /\ (F.rep.k # "str" \/ o.rep.k # "str" \/ o.rep.t = F.rep.t) \/ Say("reg", n, "alg-rep")      \* the representation that was written
      /\ (o.ty # "Decimal" \/ o.exact = DecExact(o.f)) \/ Say("reg", n, "alpha-exact")               \* self-check of the harness' abstraction
 
+CheckRegX(n) ==
+  LET o   == Data.regx[n]
+      v   == RV(o.ty, o.f)
+      inC == o.ctx # "bare"
+      F   == IF inC THEN RegFactsCtx(v, o.dcls, o.ctx) ELSE RegFactsM(v, o.dcls, o.mode)
+      c   == IF inC THEN ChanIdx(o.chan) ELSE MChanIdx(o.chan)
+      ref == IF inC THEN RefRoundTripCtx(v, o.ctx, o.chan) ELSE "eq"
+  IN /\ RefAllows(ref, o.obs) \/ Say("regx", n, IF AlgAllows(F.alg[c], o.obs) /\ F.dev[c] \notin {"none", "null-text"} THEN "ref-dev-" \o F.dev[c] ELSE "ref-other")
+     /\ AlgAllows(F.alg[c], o.obs) \/ Say("regx", n, "alg")
+     /\ (F.rep.k # "str" \/ o.rep.k # "str" \/ o.rep.t = F.rep.t) \/ Say("regx", n, "alg-rep")
+
 CheckSecret(n) ==
   LET o == Data.secret[n] IN
      /\ RefNoLeak(o.secret, o.dump, o.dump2) \/ Say("secret", n, "ref-leak")
@@ -94,6 +109,6 @@ CheckSecret(n) ==
      /\ (~o.leafdumped \/ Occurs(AlgDumpedLeaf(o.ctx, o.secret), o.dump)) \/ Say("secret", n, "alg")      \* leafdumped: the entry is not dropped (skip_default)
 
 Check == CASE tkind = "num" -> CheckNum(tnum) [] tkind = "str" -> CheckStr(tnum) [] tkind = "reg" -> CheckReg(tnum)
-           [] tkind = "secret" -> CheckSecret(tnum) [] OTHER -> TRUE
+           [] tkind = "secret" -> CheckSecret(tnum) [] tkind = "regx" -> CheckRegX(tnum) [] OTHER -> TRUE
 Inv == Check \/ TRUE
 =============================================================================
